@@ -16,7 +16,17 @@ def outs (l : List (Bytes × Res)) : Bytes := (l.map Prod.fst).flatten
 /-- a `nil`-error read into a non-empty buffer returns at least one octet -/
 theorem read_more_pos (r : DR) (inp : Bytes) (k : Nat) (hk : 0 < k)
     (h : (read r inp k).2.2.2 = .more) : 0 < (read r inp k).2.1.length := by
+  by_cases hs : r.state = St.eof
+  · -- a reader that has reported end-of-file keeps doing so
+    exfalso
+    have hfst : ∀ j, (readLoop St.eof inp j).1 = St.eof := by
+      intro j; cases j <;> simp [readLoop]
+    unfold read at h
+    simp only [hs, bne_self_eq_false, Bool.and_false, Bool.false_eq_true, if_false, hfst, beq_self_eq_true, if_true] at h
+    cases h
+  have hne : (r.state != St.eof) = true := by simpa using hs
   unfold read at h ⊢
+  simp only [hne, Bool.and_true] at h ⊢
   by_cases hl : r.limited = true
   · by_cases hn : r.n = 0
     · simp only [hl, hn, beq_self_eq_true, Bool.and_self, if_true] at h
